@@ -5,6 +5,7 @@ import (
 	"encoding/hex"
 	"fmt"
 	"sort"
+	"strings"
 )
 
 // GenIterScript (C10): a key set over a three-letter alphabet (many shared prefixes), an iterator
@@ -154,6 +155,34 @@ func GenIterScript(r *Rng, hist map[string]int) []string {
 	}
 	add("list")
 	add("fold")
+	// Fold whose callback writes: overwrites and deletes of keys not yet reached, inserts before and behind
+	for j := 1 + r.Intn(2); j > 0 && len(live) > 0; j-- {
+		var ws []string
+		for i := 1 + r.Intn(4); i > 0; i-- {
+			k := randKey()
+			if r.Chance(1, 2) {
+				// an existing key
+				var ls []string
+				for e := range live {
+					ls = append(ls, e)
+				}
+				sort.Strings(ls)
+				if len(ls) > 0 {
+					k = []byte(ls[r.Intn(len(ls))])
+				}
+			}
+			if r.Chance(1, 3) {
+				ws = append(ws, "d,"+hex.EncodeToString(k))
+				delete(live, string(k))
+			} else {
+				ws = append(ws, fmt.Sprintf("p,%s,@%d:%d", hex.EncodeToString(k), 1+r.Intn(12), r.Intn(9999)))
+				live[string(k)] = true
+			}
+		}
+		add("foldw %d %s", r.Pick(0, 0, 1, 2, 5), strings.Join(ws, " "))
+		hist["fold_with_writes_in_callback"]++
+		add("fold")
+	}
 	add("close")
 	return out
 }
